@@ -1112,6 +1112,13 @@ def remove (a : Arr) (i cnt : Nat) : Option Arr := do
   chk (i ≤ a.items.length && cnt ≤ a.items.length - i)   -- :280 `MOMO_CHECK(index <= initCount && count <= initCount - index)`
   pure { a with items := a.items.take i ++ a.items.drop (i + cnt) }
 
+/-- `AddBackNogrowCrt` (AddBackNogrow / AddBackNogrowVar forward to it): Array.h:789-794 `MOMO_CHECK(GetCount() < GetCapacity())`,
+    SegmentedArray.h:457-465 `MOMO_CHECK(segIndex < mSegments.GetCount())` (the segment of item number `count` is allocated, i.e.
+    `count < GetCapacity()`, :403-406).  The capacity is not part of the abstract state: `cap` is what the real object reports. -/
+def addBackNogrow (a : Arr) (cap v : Nat) : Option Arr := do
+  chk (a.items.length < cap)
+  pure { a with items := a.items ++ [v] }
+
 end Arr
 
 namespace AIt
